@@ -7,6 +7,7 @@ pub mod c06;
 pub mod c07;
 pub mod c08;
 pub mod c09;
+pub mod c10;
 pub mod c12;
 pub mod c13;
 pub mod c14;
@@ -45,6 +46,7 @@ pub fn dispatch(id: &str, tier: Tier, replay_file: Option<&Path>) -> i32 {
             }
         }
         "C09" => go!(c09),
+        "C10" => go!(c10),
         "C12" => go!(c12),
         "C13" => go!(c13),
         "C14" => go!(c14),
